@@ -5,6 +5,18 @@ from __future__ import annotations
 import numpy as np
 
 FILES: dict = {}
+SOURCE_IS_DOUBLE = [False]  # harness flag: the registered arrays are float64 (a dtype=float32 dataset then rounds)
+
+
+def _round32(x):
+    from . import sym as S
+
+    x = S.lift(x)
+    if x.op == "c":
+        import numpy as np
+
+        return S.lift(float(np.float32(float(x.args[0]))))
+    return S.Sym("app", ("round_to_float32", x), S.REAL)
 
 
 class Dataset:
@@ -52,7 +64,20 @@ class Group:
         self.children[name] = g
         return g
 
-    def create_dataset(self, name, data=None):
+    def create_dataset(self, name, data=None, dtype=None, **kw):
+        if kw:
+            raise TypeError(f"h5 stub: unsupported create_dataset arguments {sorted(kw)}")
+        if dtype is not None and data is not None:
+            import numpy as np
+
+            arr = np.asarray(data)
+            if np.dtype(dtype) == np.float32 and (SOURCE_IS_DOUBLE[0] or arr.dtype == np.float64):
+                if arr.dtype == object:
+                    data = np.frompyfunc(_round32, 1, 1)(arr)
+                else:
+                    data = arr.astype(np.float32)
+            elif np.dtype(dtype) not in (np.dtype(np.float32), np.dtype(np.float64)):
+                raise TypeError(f"h5 stub: dtype {dtype} not modelled")
         d = Dataset(data)
         self.children[name] = d
         return d
